@@ -56,7 +56,7 @@ def dump_cfg(cfg, ctx):
                     "n_stmts": len(bb.statements), "reachable": bool(bb.reachable)})
     entry = cfg.entry_bb
     return {"bbs": bbs, "entry": pos[id(cfg.entry_bb)], "exit": pos[id(cfg.exit_bb)],
-            "ret": [_tt.id(t.to_hugr(ctx)) for t in type_to_row(cfg.output_ty)],
+            "ret": [[_tt.id(t.to_hugr(ctx)), bool(t.droppable)] for t in type_to_row(cfg.output_ty)],
             "inputs": [[_tt.id(v.ty.to_hugr(ctx)), bool(isinstance(v, Variable) and InputFlags.Inout in v.flags)]
                        for v in entry.sig.input_row]}
 
